@@ -1,35 +1,43 @@
-(** C05 - all feature configurations return bit-identical results.
-    FULL STATEMENT (needs C01/C02):  In c1 ALL_CONFIGS -> In c2 ALL_CONFIGS -> valid_inputb i fr e = true ->
-      parse_float c1 .. f b1 i fr e = parse_float c2 .. f b2 i fr e.
-    PROVED (closed by [exact]): stage 1 does not depend on the configuration at all (it has no
-    configuration parameter) nor on the build mode ([parse_number_build_indep]); for the whole
-    fast-path class the results of any two shipped configurations and build modes are identical
-    ([fast_class_config_independent], from the end-to-end theorem); every source of powers of ten /
-    five (tables, std powf/powd, bundled libm, u64::pow) yields the same exact values in all eight
-    configurations ([on_demand_pow_ok], on the values dumped from the compiled crate on every run).
-    The check compares all 8 configurations x 2 build modes of the real code bit for bit. *)
+(** C05 - all feature configurations return bit-identical results.  PROVED END TO END: [C05_config_independent] for any two of the eight shipped configurations and any two build modes.
+    Domain and premise as in props/C01.v: [in_domain] = valid_inputb and at most 2^28 digits, every i32
+    exponent; [deep_ok] is vacuous for the compact configurations and the single residual premise for
+    the Eisel-Lemire ones (see props/C01.v).  Closed by [exact]; the model is tied to /repo by the
+    correspondence harness on every run. *)
 
-From Coq Require Import ZArith QArith List Bool.
-From ML Require Import base.RustSem model.Fmt model.Number model.Parse model.Top model.Vec model.Bigint spec.Decimal spec.Round spec.RneZ spec.RneBridge
-  gen.Consts gen.Tables gen.BTables gen.PowDump proofs.LimbVal proofs.ParseFacts proofs.Glue proofs.NoUB proofs.BigintFacts2 proofs.FastPathFacts proofs.EndToEnd proofs.TableFacts.
+From Coq Require Import ZArith QArith Qabs List Bool Reals Qreals.
+From Coq Require Import Floats.SpecFloat.
+From Flocq Require Import Core.Core.
+From ML Require Import base.RustSem model.Fmt model.Num model.Number model.Parse model.Lemire model.Bellerophon model.Top
+  spec.Decimal spec.Round spec.RoundFacts spec.DigitsSuffice gen.Consts gen.Tables gen.BTables gen.PowDump
+  proofs.ParseFacts proofs.FastPathFacts proofs.EndToEnd proofs.EndToEnd2 proofs.EndToEnd3 proofs.EndToEnd4 proofs.EndToEnd5 proofs.EndToEnd6 proofs.EndToEnd7
+  proofs.LemireFacts6 proofs.Glue.
 Import ListNotations.
 
 Open Scope Z_scope.
+
+Theorem C05_C05_config_independent :
+  forall (c1 c2 : config) (f : format) (b1 b2 : build) (i fr : list Z) (e : Z),
+         In c1 ALL_CONFIGS ->
+         In c2 ALL_CONFIGS ->
+         f = F32 \/ f = F64 ->
+         in_domain i fr e ->
+         deep_ok c1 f b1 i fr e -> deep_ok c2 f b2 i fr e -> PF c1 f b1 i fr e = PF c2 f b2 i fr e.
+Proof. exact C05_config_independent. Qed.
+
+Theorem C05_parse_float_correct :
+  forall (c : config) (f : format) (b : build) (i fr : list Z) (e : Z),
+         In c ALL_CONFIGS ->
+         f = F32 \/ f = F64 ->
+         valid_inputb i fr e = true ->
+         zlen i + zlen fr <= 2 ^ 28 ->
+         (compact c = false -> no_deep_fallback_at f b (parse_spec i fr e)) ->
+         PF c f b i fr e = Ok (RN f (dec_value i fr e)).
+Proof. exact parse_float_correct. Qed.
 
 Theorem C05_parse_number_build_indep :
   forall (b1 b2 : build) (i f : list Z) (e : Z),
          valid_inputb i f e = true -> parse_number b1 i f e = parse_number b2 i f e.
 Proof. exact parse_number_build_indep. Qed.
-
-Theorem C05_fast_class_config_independent :
-  forall (c1 c2 : config) (f : format) (b1 b2 : build) (BT1 BT2 : btables) (L1 L2 : limits)
-           (i fr : list Z) (e : Z),
-         In c1 ALL_CONFIGS ->
-         In c2 ALL_CONFIGS ->
-         f = F32 \/ f = F64 ->
-         fast_class f i fr e ->
-         parse_float c1 TABLES BT1 L1 f b1 i fr e = parse_float c2 TABLES BT2 L2 f b2 i fr e.
-Proof. exact fast_class_config_independent. Qed.
 
 Theorem C05_try_fast_path_eq_shipped :
   forall (c : config) (f : format) (b : build) (n : number),
@@ -41,17 +49,8 @@ Theorem C05_try_fast_path_eq_shipped :
          Ok (if fast_path_applies f n then Some (RN f (inject_Z (nmant n) * pow10Q (nexp n))) else None).
 Proof. exact try_fast_path_eq_shipped. Qed.
 
-Theorem C05_on_demand_pow_ok :
-  forallb (float_pow_ok F32 11) ALL_POW_F32 = true /\
-         forallb (float_pow_ok F64 23) ALL_POW_F64 = true /\
-         forallb (fun l : list Z => int_pow_ok 10 l && (20 <=? zlen l)) ALL_IPOW10 = true /\
-         forallb (fun l : list Z => int_pow_ok 5 l && (28 <=? zlen l)) ALL_IPOW5 = true /\
-         length ALL_POW_F32 = 8%nat /\
-         length ALL_POW_F64 = 8%nat /\ length ALL_IPOW10 = 8%nat /\ length ALL_IPOW5 = 8%nat.
-Proof. exact on_demand_pow_ok. Qed.
 
-
+Print Assumptions C05_C05_config_independent.
+Print Assumptions C05_parse_float_correct.
 Print Assumptions C05_parse_number_build_indep.
-Print Assumptions C05_fast_class_config_independent.
 Print Assumptions C05_try_fast_path_eq_shipped.
-Print Assumptions C05_on_demand_pow_ok.
